@@ -22,7 +22,7 @@ import fcntl
 REPO = os.environ.get("VERIF_REPO", "/repo")
 SRC = os.path.join(REPO, "src")
 VERIF = os.path.dirname(os.path.dirname(os.path.dirname(os.path.abspath(__file__))))
-CACHE = os.path.join(VERIF, ".cache")
+CACHE = os.path.join(os.environ.get("VERIF_OUT") or VERIF, ".cache")
 STAMP = os.path.join(CACHE, "build_stamp.json")
 PY = "/venv/bin/python"
 SO_SUFFIX = ".cpython-312-x86_64-linux-gnu.so"
